@@ -248,11 +248,37 @@ def respond(ctx):
             ctx.ob("R07.3", "unknown-id|dropped", not enq and not mods and ret_kind(lf)[0] == "Ok", "a response whose id names no connection is dropped silently", fn.loc(lf.bb))
     ctx.ob("R07.3", "floor", n >= 2, "%d found-paths inspected (floor 2)" % n)
     fe, le = leaves(ctx, srv.ENQ)
+    cyc = fe.cyclic_blocks()
+
+    def supplied_order(x, lf):
+        """x = the call that produced the item handed to respond(): the items come in the order of the vector passed in --
+        a plain iteration over it, or pop() from the back of the vector reversed once before the loop."""
+        def strip(t, hows):
+            t = look(t)
+            while t[0] == "mut" and last_seg(t[2]) in hows:
+                t = look(t[1])
+            return t
+        if is_call(x, "next") and x[2]:
+            it = strip(x[2][0], ("next",))
+            while is_call(it, "into_iter", "iter", "by_ref", "drain") and it[2]:
+                if last_seg(it[1]) == "drain" and not (len(it[2]) == 2 and look(it[2][1])[0] == "agg" and look(it[2][1])[1].startswith("std::ops::RangeFull")):
+                    return False
+                it = strip(it[2][0], ("next", "deref_mut", "deref", "drain"))
+            return it == ("arg", 2)
+        if is_call(x, "pop") and "Vec" in x[1] and x[2]:
+            v = strip(x[2][0], ("pop",))
+            if not (v[0] == "mut" and last_seg(v[2]) == "reverse"):
+                return False
+            v = strip(v[1], ("deref_mut", "deref"))
+            rev = [e for e in lf.events if e[0] == "call" and last_seg(e[3]) == "reverse"]
+            return v == ("arg", 2) and len(rev) == 1 and int(rev[0][1]) not in cyc
+        return False
+
     for lf in le:
         for e in calls(lf, srv.RESPOND):
             a = look(e[4][2][1])
-            ok = look(e[4][2][0]) == ("arg", 1) and payload_of(a) is not None and is_call(payload_of(a), "next")
-            ctx.ob("R07.3", "enqueue_responses|each-to-respond", ok, "enqueue_responses hands each response of the vector to respond()", fe.loc(e[1]))
+            ok = look(e[4][2][0]) == ("arg", 1) and payload_of(a) is not None and supplied_order(payload_of(a), lf)
+            ctx.ob("R07.3", "enqueue_responses|each-to-respond", ok, "enqueue_responses hands each response of the vector to respond(), in the order of the vector (plain iteration, or pop() after one reverse())", fe.loc(e[1]))
 
 
 def counter(ctx):
@@ -286,6 +312,8 @@ def counter(ctx):
                     src = payload_of(y)
                     src = look(strip_map_err(src)) if src is not None else None
                     oky = src is not None and is_call(src, "try_from", "try_into") and len(src[2]) == 1 and is_call(look(src[2][0]), "len") and same_vec(look(look(src[2][0])[2][0]), ret)
+                if not oky and const_of(y) == 0 and ry["empty"]:
+                    oky = True      # `+ 0` on a path that hands nothing back
                 if not oky and ry["form"] == "out-param" and ry["vec"] is None:
                     oky = counted_by_length_difference(facts, lf, y, ry)
                 ok = okx and oky
